@@ -7,7 +7,7 @@ every request and decides every answer (DESIGN §4 C17).
 """
 import numpy
 from sklearn.dummy import DummyRegressor
-from sklearn.linear_model import LinearRegression
+from sklearn.linear_model import ElasticNet, LinearRegression
 from sklearn.tree import DecisionTreeRegressor
 
 from dsim import ctx as C
@@ -22,6 +22,7 @@ PROP = "C17"
 PLinReg = P.make_peer(LinearRegression)
 PDummy = P.make_peer(DummyRegressor)
 PTree = P.make_peer(DecisionTreeRegressor)
+PElasticNet = P.make_peer(ElasticNet)
 
 
 class PickyLinReg(PLinReg):
@@ -35,13 +36,14 @@ class PickyLinReg(PLinReg):
 
 
 def _alpha(ch, n):
-    """alpha such that alpha*n is not within 0.05 of a half-integer and
-    round(alpha*n) >= 1."""
+    """alpha such that alpha*n is an exact half-integer or not within 0.05 of
+    one, and round(alpha*n) >= 1 whichever way an exact half is rounded (the
+    statement's "round" does not say: both neighbours are accepted there)."""
     for _ in range(20):
         a = ch.choice("w", [1.0, 0.5, 0.75, 1.5, 0.34, 2.0, 0.9, 1.21], "alpha")
         v = a * n
         frac = v - numpy.floor(v)
-        if abs(frac - 0.5) > 0.05 and int(v + 0.5) >= 1:
+        if (abs(frac - 0.5) > 0.05 or float(2 * v).is_integer()) and min(int(v + 0.5), round(v)) >= 1:
             return a
     return 1.0
 
@@ -89,8 +91,17 @@ def run(c, index, tier):
             c.probe("some_weights_are_zero")
     alpha = _alpha(ch, n)
     n_est = ch.integer("w", 1, 8, "n_estimators")
-    local_name = ch.choice("w", ["linreg", "tag", "dummy", "tree", "picky"], "local")
-    local = {"linreg": PLinReg, "tag": P.TagRegressor, "dummy": PDummy, "tree": lambda: PTree(max_depth=2, random_state=0), "picky": PickyLinReg}[local_name]()
+    local_name = ch.choice("w", ["linreg", "tag", "dummy", "tree", "picky", "warm"], "local")
+    local = {
+        "linreg": PLinReg,
+        "tag": P.TagRegressor,
+        "dummy": PDummy,
+        "tree": lambda: PTree(max_depth=2, random_state=0),
+        "picky": PickyLinReg,
+        # a base regressor that continues from its previous solution when it is
+        # fitted again: only a fresh clone is trained on its resample alone
+        "warm": lambda: PElasticNet(alpha=0.01, warm_start=True, max_iter=50, tol=1e-3),
+    }[local_name]()
     n_jobs = ch.choice("w", [None, 2, 3, None], "n_jobs")
     mode = "adversarial" if ch.draw("r", 4, "entropy-mode") != 3 else "pinned"
     mode = getattr(c, "force_entropy_mode", None) or mode  # fidelity self-test only
@@ -104,6 +115,7 @@ def run(c, index, tier):
         Xq = Xq.astype(numpy.float32)
     g = ch.subseed("r", "global-seed")
     size = int(n * alpha + 0.5)
+    sizes_ok = {size, int(round(n * alpha))}  # an exact half may be rounded either way
     c.scenario = {
         "n": n,
         "d": d,
@@ -122,6 +134,7 @@ def run(c, index, tier):
         c.probe("n_equals_1")
 
     model = IntervalRegressor(estimator=local, n_estimators=n_est, alpha=alpha, n_jobs=n_jobs)
+    before_ids, before_keep = set(), []
     if ch.boolean("w", 0.3, "history-before"):
         # the same object has a past: a fit on another training set with
         # another number of models, queried, then possibly a fit that died at
@@ -130,7 +143,7 @@ def run(c, index, tier):
         n0 = ch.integer("w", 2, 14, "n-before")
         X0 = U.unique_rows(rs0, n0, d) * 1.3 - 0.2
         y0 = numpy.round(rs0.randn(n0), 5) + numpy.arange(n0) * 1e-3
-        k0 = ch.integer("w", 1, 9, "n_estimators-before")
+        k0 = n_est if ch.boolean("w", 0.5, "same-n_estimators-before") else ch.integer("w", 1, 9, "n_estimators-before")
         c.entropy = E.Entropy("pinned")
         c.fault_plan = P.FaultPlan(())
         numpy.random.seed((g + 1) % (2**32 - 1))
@@ -148,6 +161,8 @@ def run(c, index, tier):
             okf, _ = U.sut(c, "fit(before, dies)", model.fit, X0, y0)
             if c.fault_plan.fired:
                 c.probe("earlier_fit_died_at_a_resample")
+        before_ids = set(id(e) for e in getattr(model, "estimators_", ()))
+        before_keep = list(getattr(model, "estimators_", ()))  # keeps the ids alive
         model.set_params(n_estimators=n_est)
         c.scenario["history_before"] = {"n": n0, "n_estimators": k0}
         c.probe("fitted_before_on_other_data")
@@ -194,7 +209,7 @@ def run(c, index, tier):
             )
             break
     for kind, lo, hi, sz, task, res in rint:
-        if sz != size:
+        if sz not in sizes_ok:
             _viol(c, seen, "resample-size", ("seam",), "a resample asked for %d indices, expected round(alpha*n)=%d" % (sz, size))
             break
         if res.size and (res.max() >= hi or res.min() < lo):
@@ -215,7 +230,7 @@ def run(c, index, tier):
         if not hasattr(est, "rec_X_"):
             _viol(c, seen, "record", ("not-fitted",), "estimators_[%d] was not fitted" % i)
             return
-        if est.rec_X_.shape[0] != size:
+        if est.rec_X_.shape[0] not in sizes_ok:
             _viol(c, seen, "resample-size", ("record",), "estimators_[%d] was trained on %d rows, expected round(alpha*n)=%d" % (i, est.rec_X_.shape[0], size))
             return
         try:
@@ -230,6 +245,8 @@ def run(c, index, tier):
         if (w is None) != (est.rec_w_ is None) or (w is not None and not numpy.array_equal(est.rec_w_, w[R])):
             _viol(c, seen, "record", ("weight-misaligned",), "estimators_[%d]: weights are not those of the drawn rows (rows %r)" % (i, R))
             return
+    if any(getattr(e, "rec_n_fit_", 1) != 1 or id(e) in before_ids for e in ests):
+        _viol(c, seen, "record", ("model-trained-before",), "a model of the last fit had been trained before (%r fits; object of an earlier fit reused: %r): it was not trained on its resample of the current training set alone" % ([getattr(e, "rec_n_fit_", 1) for e in ests], [id(e) in before_ids for e in ests]))
     if len(set(id(e) for e in ests)) != len(ests) or any(e is local for e in ests):
         _viol(c, seen, "record", ("shared-model",), "the fitted models are not distinct clones of the base estimator")
     sampled = [q for q in reqs if q[0] in ("randint", "rand", "random_sample", "random")]
